@@ -257,21 +257,84 @@ def rule_anchor(ctx, ts, px):
     for st, gd in pyfront.walk_guarded(tag.node.body):
         if isinstance(st, ast.Return) and not any("ArrayType" in e and p for e, p in pyfront.guard_terms(gd)):
             comp_ret = st.value
-    frag = None
+    if comp_ret is None:
+        raise AnalysisError("anchor missing: composite branch of filter_tag_id")
+    uparam = url.node.args.args[0].arg
+    tparam = tag.node.args.args[0].arg
+    asg = {}
     for n in ast.walk(url.node):
-        if isinstance(n, ast.Assign) and isinstance(n.targets[0], ast.Name) and isinstance(n.value, ast.Call) and "format" in ast.unparse(n.value.func):
-            frag = (n.targets[0].id, n.value)
-    if comp_ret is None or frag is None:
-        raise AnalysisError("anchor missing: format expressions of tag_id / url_from_type")
-    same = ast.dump(comp_ret) == ast.dump(frag[1])
-    ctx.ob(R, m.rel, "filter_url_from_type fragment == filter_tag_id (composite)", same,
-           "" if same else f"url fragment is {ast.unparse(frag[1])} but the element id is {ast.unparse(comp_ret)}: links point at anchors that do not exist",
-           url.node.lineno)
-    rets = [r for r in ast.walk(url.node) if isinstance(r, ast.Return)]
-    ok = len(rets) == 1 and f"#{{}}" in ast.unparse(rets[0].value) and frag[0] in ast.unparse(rets[0].value)
-    ctx.ob(R, m.rel, "filter_url_from_type returns ...#<fragment>", ok, "", url.node.lineno)
-    # in-page references vs ids
+        if isinstance(n, ast.Assign) and len(n.targets) == 1 and isinstance(n.targets[0], ast.Name):
+            asg.setdefault(n.targets[0].id, []).append(n.value)
+    rets = [r for r in ast.walk(url.node) if isinstance(r, ast.Return) and r.value is not None]
+
+    def resolve(e, depth=0):
+        if isinstance(e, ast.Name) and len(asg.get(e.id, [])) == 1 and depth < 4:
+            return resolve(asg[e.id][0], depth + 1)
+        return e
+
+    def fmt_parts(e):
+        """(format string, argument expressions) of "<lit>".format(...) / f-string"""
+        e = resolve(e)
+        if isinstance(e, ast.Call) and isinstance(e.func, ast.Attribute) and e.func.attr == "format" and isinstance(e.func.value, ast.Constant) \
+                and isinstance(e.func.value.value, str):
+            return e.func.value.value, list(e.args)
+        if isinstance(e, ast.JoinedStr):
+            lit = "".join(v.value if isinstance(v, ast.Constant) else "{}" for v in e.values)
+            return lit, [v.value for v in e.values if isinstance(v, ast.FormattedValue)]
+        return None, []
+
+    ok_ret = len(rets) == 1
+    lit, args = fmt_parts(rets[0].value) if ok_ret else (None, [])
+    ok_ret = ok_ret and lit is not None and "#" in lit and lit.count("{}") == len(args) >= 1
+    ctx.ob(R, m.rel, "filter_url_from_type returns <page part>#<fragment>", ok_ret, "" if ok_ret else "return shape not recognised", url.node.lineno)
+    if ok_ret:
+        page_lit = lit.split("#")[0]
+        hard = re.findall(r"[\w-]+\.\w+", page_lit)
+        ctx.ob(R, m.rel, "filter_url_from_type does not hard-code the name of the namespace page", not hard,
+               "" if not hard else f"the link names the page file {hard}: the page written for a namespace is <namespace_file_stem><extension> from the "
+               "configuration (--output-extension, namespace_file_stem), so the link dangles whenever those are not the defaults", url.node.lineno)
+        frag = resolve(args[-1])
+        # the fragment is filter_tag_id(<instance or its service>) or the same format expression as tag_id's composite branch
+        same = False
+        if isinstance(frag, ast.Call) and isinstance(frag.func, ast.Name) and frag.func.id == "filter_tag_id":
+            same = True
+        else:
+            fl, fa = fmt_parts(frag)
+            cl, ca = fmt_parts(comp_ret)
+            if fl is not None and fl == cl and len(fa) == len(ca):
+                norm = lambda x, pname: ast.unparse(resolve(x)).replace(pname, "<T>")  # noqa: E731
+                tail_same = [norm(a, uparam) for a in fa[1:]] == [norm(a, tparam) for a in ca[1:]]
+                # first argument: <name>.replace(".", "_") where <name> is instance.full_name, possibly reduced to the parent service
+                a0 = resolve(fa[0])
+                head_ok = isinstance(a0, ast.Call) and isinstance(a0.func, ast.Attribute) and a0.func.attr == "replace" \
+                    and [getattr(x, "value", None) for x in a0.args] == [".", "_"] and f"{uparam}.full_name" in ast.unparse(resolve(a0.func.value))
+                same = tail_same and head_ok
+        ctx.ob(R, m.rel, "filter_url_from_type fragment == filter_tag_id (composite)", same,
+               "" if same else f"url fragment is {ast.unparse(frag)} but the element id is {ast.unparse(comp_ret)}: links point at anchors that do not exist",
+               url.node.lineno)
+        # request/response types of a service have no entry of their own: the link must go to the service's entry
+        src = ast.unparse(url.node)
+        svc = "has_parent_service" in src or "parent_service" in src
+        ctx.ob(R, m.rel, "filter_url_from_type: a service's request/response link to the service's entry (they have no top-level entry of their own)", svc,
+               "" if svc else "the anchor <ns>_<Service>_Request_<v> is never emitted (nested entries get a uniquified id): links to request/response types dangle",
+               url.node.lineno)
+    # the link is relative to the page that contains it: one '../' per namespace level of that page
     N = ts.nodes
+    nlink = 0
+    for t in ts.of_lang("html", "templates"):
+        for node, stack in j2front.walk(t.ast):
+            if isinstance(node, N.Output):
+                parts = node.nodes
+                for i, e in enumerate(parts):
+                    if isinstance(e, N.Filter) and e.name == "url_from_type":
+                        nlink += 1
+                        prev = parts[i - 1] if i > 0 else None
+                        ok = prev is not None and not isinstance(prev, N.TemplateData) and "'../'" in xs(prev) and re.search(r"\bT\b", xs(prev)) is not None
+                        ctx.ob(R, t.rel, f"href built from url_from_type is prefixed by the depth of the containing page @ {j2front.construct_path(stack)}", ok,
+                               "" if ok else "url_from_type yields '../<root namespace>/#...', which is right only on the root namespace's page; pages of nested "
+                               "namespaces (<out>/<a>/<b>/index.html) need one more '../' per level", node.lineno)
+    ctx.floor(R + ":links", nlink, 1)
+    # in-page references vs ids
     ids = set()
     refs = []
     var_defs = {}
